@@ -107,7 +107,7 @@ def plan_C01(tier):
     return qs, info
 
 
-OPS = {"GO": 1, "GA": 2, "N": 3, "LO": 4, "LA": 5, "RAW": 6, "F": 7, "TW": 8, "FS": 9, "FE": 10, "NE": 11}
+OPS = {"GO": 1, "GA": 2, "N": 3, "LO": 4, "LA": 5, "RAW": 6, "F": 7, "TW": 8, "FS": 9, "FE": 10, "NE": 11, "RS": 12, "VF": 13}
 
 
 def gen_scripts(root, K, alphabet=("GO", "GA", "N", "LO", "LA", "RAW", "F"), maximal_only=True):
@@ -200,7 +200,7 @@ def script_query(propset, script, n, D, root, mode=1, J=None, checks="func", tim
                  witness=witness, arch=arch, group="h_script.p%d" % propset)
 
 
-def shape_script_query(propset, node, script, tag, root, D=None, extra=None, timeout=600, checks="func"):
+def shape_script_query(propset, node, script, tag, root, D=None, extra=None, timeout=600, checks="func", tight=False):
     from . import shapes
     b, m = shapes.skeleton(node)
     n = len(b)
@@ -211,6 +211,12 @@ def shape_script_query(propset, node, script, tag, root, D=None, extra=None, tim
     q.name = "shape.p%d.%s.%s.%s" % (propset, node.label(), tag, "-".join(script))
     q.array_fs = True
     q.mem_gb = 1.5
+    if tight:
+        # lookups: bounds derived from the concrete shape instead of the buffer length (unwinding assertions stay on)
+        inner = max([c.tokens() for c in node.children] + [1]) + 4
+        q.unwindset["_advance_parsing.0"] = inner
+        q.unwindset["binson_parser_field_with_length.0"] = len(node.children) + 2
+        q.mem_gb = 3
     q.tags.update({"shape": node.label(), "family": "H-SHAPE", "variant": tag,
                    "symbolic": "payload bytes (names, integers, doubles, string/bytes content)"})
     q.group = "h_script.shape.p%d" % propset
@@ -451,14 +457,19 @@ def lookup_shapes():
 
 def plan_C07(tier):
     qs = []
-    scripts = [["GO", "F", "LO"], ["GO", "F", "F", "LO"], ["GO", "F", "N", "LO"], ["GO", "N", "F", "LO"], ["GO", "F", "F", "F", "LO"],
-               ["GO", "FS", "FS", "LO"], ["GO", "FE", "F", "LO"], ["GO", "F", "GO", "LO", "F", "LO"], ["GO", "F", "GA", "LA", "F", "LO"],
-               ["GO", "F", "F", "N", "LO"], ["GO", "NE", "F", "LO"], ["GO", "F", "RAW", "F", "LO"]]
+    # no trailing leave: after a lookup with a symbolic name the cursor position is symbolic, and every further call
+    # has to be explored from all positions; the cursor offset after a failed lookup is asserted directly instead
+    scripts = [["GO", "F"], ["GO", "F", "F"], ["GO", "F", "N"], ["GO", "N", "F"], ["GO", "FS"], ["GO", "FE"], ["GO", "NE"]]
+    shapes_l = lookup_shapes()
     if tier == "quick":
-        scripts = scripts[:9]
-    for node in lookup_shapes():
+        scripts = scripts[:4] + [["GO", "FE"]]
+        shapes_l = [shapes_l[i] for i in (0, 1, 3, 6, 7)]
+    else:
+        scripts += [["GO", "F", "F", "F"], ["GO", "F", "GO", "LO", "F"], ["GO", "F", "GA", "LA", "F"], ["GO", "F", "RAW", "F"], ["GO", "FS", "FS"],
+                    ["GO", "FE", "F"], ["GO", "F", "F", "N"]]
+    for node in shapes_l:
         for s in scripts:
-            qs.append(shape_script_query(7, node, s, "lookup", 1))
+            qs.append(shape_script_query(7, node, s, "lookup", 1, tight=True, timeout=1500))
     # arbitrary valid objects, symbolic names
     if tier == "quick":
         qs.append(script_query(7, ["GO", "F", "F"], 8, 1, 1, J=4))
@@ -472,7 +483,7 @@ def plan_C07(tier):
         "rule": "H-SHAPE lookups: one query per (object shape, lookup script): field names in the document and the names looked up "
                 "(length 0..2, arbitrary bytes incl. 0x00 and >= 0x80) are symbolic; result, name, type and value compared with the "
                 "reference lookup. H-SCRIPT: all valid n-byte objects. H-LEAF: _cmp_name sign for all contents of lengths <= 4.",
-        "bounds": {"object_shapes": [n.label() for n in lookup_shapes()], "scripts": scripts, "looked_up_name_len": [0, 2]},
+        "bounds": {"object_shapes": [n.label() for n in shapes_l], "scripts": scripts, "looked_up_name_len": [0, 2]},
         "outside": ["objects with more than 3 fields", "names longer than 2 bytes in API queries (4 in the compare kernel)", "lookup lengths >= 2^31"],
         "assumptions": ["lookups are issued inside an object", STD_ASSUME_SHAPE],
     }
@@ -510,6 +521,38 @@ def mutation_queries(prop, tier):
     return qs
 
 
+def payload_queries(prop, tier):
+    """shapes whose PAYLOAD bytes are unconstrained (non-minimal integers, names out of order, ...): the structure is
+    well-formed, validity depends on the payload; traversal variants that skip / leave / enter the region"""
+    from . import shapes
+    from .shapes import Node
+    qs = []
+    nodes = []
+    for code in ("I2", "I4", "I8"):
+        nodes += [(1, Node("O", [Node("O", [Node(code)], [0])], [0])), (2, Node("A", [Node("O", [Node(code)], [0])], [])),
+                  (2, Node("A", [Node("A", [Node(code)], [])], [])), (1, Node("O", [Node("A", [Node(code)], [])], [0]))]
+        if tier == "quick":
+            break
+    nodes += [(1, Node("O", [Node("O", [Node("T"), Node("T")], [1, 1])], [0])), (2, Node("A", [Node("O", [Node("T"), Node("T")], [1, 1]), Node("T")], [])),
+              (1, Node("O", [Node("T"), Node("T")], [1, 1])), (1, Node("O", [Node("T"), Node("T")], [0, 0]))]
+    for root, node in nodes:
+        for tag, s in shapes.variant_scripts(node):
+            kind = tag.split("@")[0]
+            b, m = shapes.skeleton(node)
+            n = len(b)
+            D = max(2, node.depth_obj() + (1 if root == 2 else 0))
+            q = script_query(prop, s, n, D, root, mode=2, J=None, timeout=900,
+                             extra={"SK_LEN": n, "SK_BYTES": ",".join(str(x) for x in b), "SK_MASK": ",".join(str(x) for x in m)})
+            q.name = "payload.p%d.%s.%s.%s" % (prop, node.label(), tag, "-".join(s))
+            q.array_fs = True
+            q.mem_gb = 3
+            q.tags.update({"shape": node.label(), "family": "H-PAYLOAD", "variant": tag,
+                           "symbolic": "all payload bytes, unconstrained (valid and invalid documents)"})
+            q.group = "h_script.payload"
+            qs.append(q)
+    return qs
+
+
 def plan_C08(tier):
     qs = []
     # arbitrary bytes, parser-driven scripts that end by leaving the root
@@ -529,6 +572,7 @@ def plan_C08(tier):
     for s, n, root in more:
         qs.append(script_query(8, s, n, 2, root, mode=2, J=None if n <= 5 else 6))
     qs += mutation_queries(8, tier)
+    qs += payload_queries(8, tier)
     info = {
         "rule": "H-SCRIPT in parser-driven mode on ARBITRARY bytes: ops are executed while the parser's own answers make them legal; "
                 "if the traversal ends by leaving the root: (all calls true and error NONE) <=> ref_verify accepts. H-MUT: every shape "
@@ -580,7 +624,7 @@ def plan_C11(tier):
                 qs.append(shape_script_query(11, node, s, "tw", root))
         # raw on a non-container: false and nothing changes
     from .shapes import Node
-    for root, node in [(2, Node("A", [Node("T"), Node("A", [], [])], [])), (1, Node("O", [Node("I1"), Node("O", [], [])], [0, 1]))]:
+    for root, node in [(2, Node("A", [Node("T"), Node("A", [], [])], [])), (1, Node("O", [Node("T"), Node("O", [], [])], [0, 1]))]:
         first = "GA" if root == 2 else "GO"
         last = "LA" if root == 2 else "LO"
         qs.append(shape_script_query(11, node, [first, "N", "RAW", "N", "RAW", "N", last], "raw-on-scalar", root))
@@ -855,8 +899,33 @@ def tworun_query(mode, n, D, root, extra=None, timeout=1800, checks="func", name
                  tags={"n": n, "D": D, "root": "object" if root == 1 else "array", "family": "H-2RUN"}, group="h_2run.m%d" % mode)
 
 
+def reuse_queries(tier):
+    """observable form of C12: abandon a traversal at EVERY point, reset (or verify), then traverse completely;
+    everything after the reset is compared with the reference cursor, i.e. with what a fresh parser must answer"""
+    from . import shapes
+    qs = []
+    for root in (1, 2):
+        nodes = shapes.chain_shapes(root, 4, True) + shapes.gen_shapes(root, 6 if root == 1 else 5, ("T", "S1"), 3)
+        if tier != "quick":
+            nodes += shapes.chain_shapes(root, 5, True) + shapes.gen_shapes(root, 8 if root == 1 else 7, ("T", "S1"), 3)
+        seen = set()
+        for node in nodes:
+            if node.label() in seen:
+                continue
+            seen.add(node.label())
+            full = shapes.full_script(node)
+            cuts = range(1, len(full)) if tier != "quick" else [k for k in range(1, len(full)) if full[k - 1] in ("GO", "GA", "N")]
+            for cut in cuts:
+                for op in (("RS",) if tier == "quick" else ("RS", "VF")):
+                    s = full[:cut] + [op] + full
+                    q = shape_script_query(12, node, s, "reuse@%d" % cut, root)
+                    qs.append(q)
+    return _sparse_witness(qs, 6 if tier == "quick" else 16)
+
+
 def plan_C12(tier):
     qs = []
+    qs += reuse_queries(tier)
     ns = (0, 1, 2, 3, 5, 6) if tier == "quick" else range(0, 11)
     for n in ns:
         for root in (1, 2):
@@ -877,7 +946,8 @@ def plan_C12(tier):
     for c in ((0, 1, 2, 8) if tier == "quick" else range(0, 13)):
         qs.append(writer_query(12, 4, c))
     info = {
-        "rule": "H-DOC verify;verify; H-2RUN: two parser objects with DIFFERENT arbitrary prior contents (struct and state array) over the "
+        "rule": "H-SHAPE reuse: every shape x every abandon point: prefix of the full traversal, then reset (or verify), then the full "
+                "traversal compared with the reference cursor (= a fresh parser). H-DOC verify;verify; H-2RUN: two parser objects with DIFFERENT arbitrary prior contents (struct and state array) over the "
                 "same buffer are field-wise equal after init; "
                 "H-STEP: reset / successful verify from any state == init "
                 "state; writer init/reset from arbitrary prior contents.",
